@@ -333,10 +333,12 @@ const (
 	fbQuery
 	fbQueryT2
 	fbWithGR
+	fbWithRelT0 // WithRelation(GR, zero entity): a fixed target that is the zero entity (entities without a target)
+	fbQueryT0   // Query(zero entity)
 	fbNumOps
 )
 
-var fbNames = [...]string{"With(GX)", "Without(GY)", "Optional(last)", "Exclusive()", "WithRelation(GR)", "WithRelation(GR, T1)", "Register", "Unregister", "Query()", "Query(T2)", "With(GR)"}
+var fbNames = [...]string{"With(GX)", "Without(GY)", "Optional(last)", "Exclusive()", "WithRelation(GR)", "WithRelation(GR, T1)", "Register", "Unregister", "Query()", "Query(T2)", "With(GR)", "WithRelation(GR, zero entity)", "Query(zero entity)"}
 
 type fent struct {
 	e      ecs.Entity
@@ -418,7 +420,7 @@ func c18FilterSeq(ar *gen18.Arity, seq []int) (msg string, sig string, queries i
 		illegal := false
 		unspecified := false
 		switch op {
-		case fbWith, fbWithGR, fbOptional, fbWithRel, fbWithRelT1:
+		case fbWith, fbWithGR, fbOptional, fbWithRel, fbWithRelT1, fbWithRelT0:
 			illegal = c.registered
 		case fbWithout:
 			illegal = c.registered || c.exclusive
@@ -428,7 +430,7 @@ func c18FilterSeq(ar *gen18.Arity, seq []int) (msg string, sig string, queries i
 			illegal = c.registered
 		case fbUnregister:
 			illegal = !c.registered
-		case fbQueryT2:
+		case fbQueryT2, fbQueryT0:
 			illegal = c.registered || c.fixed
 			if !c.rel {
 				unspecified = true
@@ -436,7 +438,7 @@ func c18FilterSeq(ar *gen18.Arity, seq []int) (msg string, sig string, queries i
 		}
 		// compile-time errors (relation component not part of the filter) surface at Register/Query
 		relBroken := c.rel && !(ar.Rel || c.withGR)
-		if (op == fbQuery || op == fbQueryT2 || op == fbRegister) && relBroken && !c.registered {
+		if (op == fbQuery || op == fbQueryT2 || op == fbQueryT0 || op == fbRegister) && relBroken && !c.registered {
 			illegal = true
 		}
 		if unspecified {
@@ -459,6 +461,10 @@ func c18FilterSeq(ar *gen18.Arity, seq []int) (msg string, sig string, queries i
 				f.WithRelation(generic.T[gen18.GR]())
 			case fbWithRelT1:
 				f.WithRelation(generic.T[gen18.GR](), t1)
+			case fbWithRelT0:
+				f.WithRelation(generic.T[gen18.GR](), ecs.Entity{})
+			case fbQueryT0:
+				q = f.Query(&g.w, ecs.Entity{})
 			case fbRegister:
 				f.Register(&g.w)
 			case fbUnregister:
@@ -476,7 +482,7 @@ func c18FilterSeq(ar *gen18.Arity, seq []int) (msg string, sig string, queries i
 				}
 				return fmt.Sprintf("%s: the last call is documented to panic but did not", desc(i)), "filter:nopanic:" + fbNames[op], queries
 			}
-			if op == fbQuery || op == fbQueryT2 || op == fbRegister {
+			if op == fbQuery || op == fbQueryT2 || op == fbQueryT0 || op == fbRegister {
 				return "", "", queries // a failed compile leaves the builder in an unspecified state
 			}
 			continue
@@ -499,11 +505,13 @@ func c18FilterSeq(ar *gen18.Arity, seq []int) (msg string, sig string, queries i
 			c.rel = true
 		case fbWithRelT1:
 			c.rel, c.fixed, c.fixedT = true, true, 1
+		case fbWithRelT0:
+			c.rel, c.fixed, c.fixedT = true, true, 0
 		case fbRegister:
 			c.registered = true
 		case fbUnregister:
 			c.registered = false
-		case fbQuery, fbQueryT2:
+		case fbQuery, fbQueryT2, fbQueryT0:
 			queries++
 			// expected selection from the configuration as it is now
 			required := map[ecs.ID]bool{}
@@ -526,6 +534,9 @@ func c18FilterSeq(ar *gen18.Arity, seq []int) (msg string, sig string, queries i
 			}
 			if op == fbQueryT2 {
 				target, hasT = 2, true
+			}
+			if op == fbQueryT0 {
+				target, hasT = 0, true
 			}
 			want := map[ecs.Entity]bool{}
 			for _, en := range ents {
@@ -645,17 +656,17 @@ func init() {
 					ops = append(ops, fbOptional)
 				}
 				if v == 1 && n >= 1 {
-					ops = append(ops, fbWithRel, fbWithRelT1, fbQueryT2)
+					ops = append(ops, fbWithRel, fbWithRelT1, fbQueryT2, fbWithRelT0, fbQueryT0)
 				}
 				if n == 0 {
 					if v == 1 {
 						continue
 					}
-					ops = append(ops, fbWithGR, fbWithRel, fbWithRelT1, fbQueryT2)
+					ops = append(ops, fbWithGR, fbWithRel, fbWithRelT1, fbQueryT2, fbWithRelT0, fbQueryT0)
 				}
 				var rec func(seq []int)
 				rec = func(seq []int) {
-					if len(seq) > 0 && (seq[len(seq)-1] == fbQuery || seq[len(seq)-1] == fbQueryT2) {
+					if len(seq) > 0 && (seq[len(seq)-1] == fbQuery || seq[len(seq)-1] == fbQueryT2 || seq[len(seq)-1] == fbQueryT0) {
 						tasks = append(tasks, task{v, n, append([]int{}, seq...)})
 					}
 					if len(seq) == maxLen {
